@@ -94,6 +94,16 @@ EXPR_HOSTS = [
     ("ann_value", "x: int = X\n"),
     ("nested_lambda_default", "g = lambda a=lambda: X: a\n"),
     ("method_default", "class A:\n    def m(self, p=X):\n        pass\n"),
+    # annotations are dropped by the converter: an unsupported expression there must still be refused
+    ("ann_annotation", "x: X = 1\n"),
+    ("ann_annotation_only", "x: X\n"),
+    ("ann_attr_target", "o.a: X = 1\n"),
+    ("param_annotation", "def h(p: X):\n    pass\n"),
+    ("kwonly_annotation", "def h(*, p: X = 1):\n    pass\n"),
+    ("vararg_annotation", "def h(*p: X, **q: X):\n    pass\n"),
+    ("return_annotation", "def h() -> X:\n    pass\n"),
+    ("method_annotation", "class A:\n    def m(self, p: X) -> X:\n        pass\n"),
+    ("class_ann", "class A:\n    v: X = 1\n"),
     ("dead_if_zero_value", "if 0:\n    x = X\n"),
     ("dead_and_operand", "x = 0 and X\n"),
     ("dead_or_operand", "x = 1 or X\n"),
